@@ -183,6 +183,13 @@ def run(chk):
   if pr['F26-jit-stale-trace-closure']['fails']:
     chk.violation('oracle', 'nn.jit re-uses a trace made for another module instance: instances of a jitted class that differ only in a closure-valued attribute return the result of an '
                   'earlier closure (fixed as F26: _HashableProxy compared hashes only, and functions hash by address)', pr['F26-jit-stale-trace-closure'])
+  wl = pr.get('while_loop', {})
+  if wl.get('plain') != {'y': 15.0, 'acc': 3, 'n_cond': 0}:
+    chk.violation('oracle', 'nn.while_loop with a carried collection differs from the Python loop (x -> 2x + 1 three times, acc counted)', {'observed': wl.get('plain')})
+  cwr = wl.get('cond_writes', {})
+  if 'err' not in cwr and cwr != {'y': 15.0, 'acc': 3, 'n_cond': 4}:
+    chk.violation('oracle', 'a write by the condition of nn.while_loop to a carried collection neither raises nor takes effect as in the Python loop (it is silently dropped)',
+                  {'observed': cwr, 'python_loop': {'y': 15.0, 'acc': 3, 'n_cond': 4}})
   chk.notes['stats'] = stat
   chk.cov['rule'] = ('random compact module programs (C01 generator) in which 60% of the sub-modules are created from nn.jit / nn.remat / nn.map_variables(identity) classes (explicit and automatic '
                      'names) and nn.cond / nn.switch / nn.while_loop statements act on variables declared before; init then 1-3 applies on the same Module instance with changing `mutable` '
